@@ -37,7 +37,13 @@ Whys(e) ==
        ELSE IF Len(ps) = 0 THEN <<"MACHINERY-NoDiagnostic">>
        ELSE one(~All(ps, LAMBDA p : FilePreserved(s, p)), "FilePreserved")
             \o one(~All(ps, LAMBDA p : LinePreserved(s, p)), "LinePreserved")
-            \o one(~All(ps, LAMBDA p : ColumnPreserved(s, p)), "ColumnPreserved")
+            \* messages and the innermost stack-trace entry name the culprit; the entries of calling frames - the last entries
+            \* of the stack trace, one calling frame when the fault is raised inside a block - name the call site
+            \o one(~(All(Positions([e EXCEPT !.frames = <<>>]), LAMBDA p : ColumnPreserved(s, p))
+                      /\ \E k \in 0..Len(e.frames) :
+                            /\ s.fault.kind = "runtimeexit" => k = Len(e.frames) - 1
+                            /\ All(SubSeq(e.frames, 1, k), LAMBDA p : ColumnPreserved(s, p))
+                            /\ All(SubSeq(e.frames, k + 1, Len(e.frames)), LAMBDA p : CallColumnPreserved(s, p))), "ColumnPreserved")
 
 LastKind(s) == LET lay == IF Len(s.nest) > 0 THEN s.nest[Len(s.nest)] ELSE s.lay
                IN IF Len(lay) = 0 THEN "file-start" ELSE lay[Len(lay)].k
